@@ -23,7 +23,11 @@ MANIFEST = dict(
          "over plain fields this is exactly the property's partition: one group per distinct assignment of the "
          "remaining axes in order of first appearance); C02_good_removal_class + C02_class_groups (a SYNTACTIC class on "
          "which good_removalb is proved for every size: flat outer products [f1,...,fn], n>=2, with any non-empty "
-         "combiner - there the groups are the property's partition unconditionally); C02_all, C02_linked. The negation of good_removalb is the "
+         "combiner - there the groups are the property's partition unconditionally), widened by "
+         "C02_good_removal_class_pairs + C02_class_pairs_groups to flat outer products whose operands are plain fields or "
+         "inner PAIRS of fields [f1,(g1,g2),f3,...] with any non-empty combiner (inner groups of >=3 fields are outside: "
+         "the condition fails when the first operand is combined and the first surviving operand is such a group; nested "
+         "all-outer trees are covered by examples only); C02_all, C02_linked. The negation of good_removalb is the "
          "classifier of F02. The model is tied to State.final_combined_ind_mapping and to split().combine() "
          "outputs by generated cases evaluated in Coq.",
     note="Trusted: Coq kernel + vm_compute; hand-written model of splits_groups/combine_final_groups (as far as "
